@@ -101,6 +101,10 @@ def evOf? : Term → Option Ev
   | .atom "update-sent" => some (.input .updateSent)
   | .list [.atom "open", a, h, r] => do
       pure (.rawOpen { asn := (← asNat? a), hold := (← asNat? h), rid := (← asNat? r) })
+  -- wire OPEN with separate My-AS field and optional 4-octet-AS capability
+  | .list [.atom "open-wire", a2, c4, h, r] => do
+      let cap4 ← asOpt? asNat? (match c4 with | .atom "none" => c4 | t => .list [.atom "some", t])
+      pure (.rawOpen { asn := effectiveAs (← asNat? a2) cap4, hold := (← asNat? h), rid := (← asNat? r) })
   | _ => none
 
 def cfgT (c : Cfg) : Term := tag "cfg" [nat c.localRid, nat c.localAsn, nat c.localHold, nat c.expectedAsn]
